@@ -155,7 +155,7 @@ class Contract:
                  ensures=None, modifies=(), loops=None, inline=False,
                  local_shapes=None, split=False, ghost=None, facts=None,
                  unroll_limit=200, use_contracts=(), scalars=None, notes="",
-                 tag="", fixed=None, after=None, hints=None, macros=None, gen=None, interp=None, lib="phonopy", auto_range=False, race=False, abstract_mul=False, derived=None, replay_ensures=None, prune=False, replay_py=None, pre_py=None):
+                 tag="", fixed=None, after=None, hints=None, macros=None, gen=None, interp=None, lib="phonopy", auto_range=False, race=False, abstract_mul=False, derived=None, replay_ensures=None, prune=False, replay_py=None, pre_py=None, replay_fn=None):
         self.file = file
         self.func = func
         self.shapes = shapes or {}
@@ -185,6 +185,7 @@ class Contract:
         self.derived = derived         # callable(V) -> [(label, formula)]: proved once from the requires, then usable as facts
         self.replay_ensures = replay_ensures  # callable(V): function-level clauses evaluated on the real code in replay only
         self.replay_py = replay_py     # callable(env) -> [violated labels]: numpy transcription of the spec, replay only
+        self.replay_fn = replay_fn     # callable() -> replay dict: real-code harness shared by helpers without a generator of their own
         self.pre_py = pre_py           # callable(env) -> bool: numpy transcription of the requires clauses, replay only
         self.prune = prune             # drop branches whose condition is unsatisfiable under the path condition (solver)
 
